@@ -151,6 +151,10 @@ func grid() []key {
 		{"", "unknown", []opt{{"", "ok"}, {"top_level_unknown = 1", "reject"}}},
 		{"network", "unknown", []opt{{"", "ok"}, {"unknown_in_network = 1", "reject"}}},
 		{"nosuchtable", "x", []opt{{"", "ok"}, {"x = 1", "reject"}}},
+		// unknown tables that hold no value (an empty or misspelt section) are unknown keys too
+		{"keybindings", "empty", []opt{{"", "ok"}, {"# an unknown table without keys", "reject"}}},
+		{"network.proxy", "empty", []opt{{"", "ok"}, {"# an unknown sub-table of a known table", "reject"}}},
+		{"", "inline", []opt{{"", "ok"}, {"environment = {}", "reject"}}},
 		{"", "syntax", []opt{{"", "ok"}, {"this is = not [ toml", "reject"}}},
 	}
 }
@@ -447,7 +451,7 @@ func main() {
 	runProduct([]int{0, 1, 2, 3, 8}, true)
 	runProduct([]int{4, 5, 6, 7}, false)
 	// unknown keys, tables and syntax errors against every single key
-	for _, x := range []int{9, 10, 11, 12} {
+	for _, x := range []int{9, 10, 11, 12, 13, 14, 15} {
 		for i := 0; i < 9; i++ {
 			runProduct([]int{x, i}, false)
 		}
